@@ -139,11 +139,13 @@ SPEC = {
                         "arrive is decided by the oracle"],
     },
     "C14": {
-        "LEAN": {"modules": ["GfaProofs.Bridge.Seq", "GfaProofs.C14", "GfaProofs.C14Paths", "GfaProofs.C14Cover", "GfaProofs.C14Merge", "GfaProofs.C16"],
+        "LEAN": {"modules": ["GfaProofs.Bridge.Seq", "GfaProofs.C14", "GfaProofs.C14Paths", "GfaProofs.C14Cover", "GfaProofs.C14Merge", "GfaProofs.C14MergeEnds", "GfaProofs.C16"],
                  "support": ["GfaModel.Seq", "GfaModel.LinearPaths", "GfaModel.MergeGraph"],
                  "theorems": ["Gfa.C14Merge.mergePath_closed", "Gfa.C14Merge.mergePath_nodup", "Gfa.C14Merge.mergePath_members_gone",
                               "Gfa.C14Merge.mergeAll_closed", "Gfa.C14Merge.mergeAll_nodup", "Gfa.C14Merge.mergePath_steps",
                               "Gfa.C14Merge.lenAlong_sum", "Gfa.C14Merge.merged_length_matches",
+                              "Gfa.C14Merge.merged_sequence_is_spell", "Gfa.C14Merge.moveTo_L_ends", "Gfa.C14Merge.moved_first",
+                              "Gfa.C14Merge.moved_last", "Gfa.C14Merge.moveTo_L_rest",
                               "Gfa.C14.linearPaths_cover", "Gfa.C14.linearPaths_maximal", "Gfa.C14.linearPath_closed", "Gfa.C14.traverse_last",
                               "Gfa.C14.linearPaths_chains", "Gfa.C14.linearPaths_disjoint", "Gfa.C14.linearPath_chain",
                               "Gfa.C14.linearPath_names", "Gfa.C14.traverse_chain", "Gfa.C14.otherEnds_sym", "Gfa.C14.joined_unique",
@@ -161,7 +163,10 @@ SPEC = {
                         "ends moved - positions of E lines recomputed -, members removed with their dependants) and compared with the library by complete "
                         "observation after the merge, refusals included (name taken, overlap not M/=); proved: closure and distinct identifiers carry "
                         "through (mergePath_closed/_nodup, mergeAll_*), no member identifier survives (mergePath_members_gone), the length written is "
-                        "the sum of member lengths minus overlaps and equals the spelled length (lenAlong_sum, merged_length_matches); which lines "
+                        "the sum of member lengths minus overlaps and equals the spelled length (lenAlong_sum, merged_length_matches), the sequence of the "
+                        "merged segment is the spelled sequence of the chain (merged_sequence_is_spell), a GFA1 link moved from an outer end joins the "
+                        "left (first member) / right (last member) end of the merged segment with whatever it joined before, overlap and tags kept "
+                        "(moved_first, moved_last, moveTo_L_rest; the same for E lines rests on the correspondence); which lines "
                         "are left untouched (frame) and the options redundant_junctions / enable_tracking / cut_counts / merged_name are decided by the "
                         "text-level oracle on the real library only"],
     },
